@@ -86,6 +86,72 @@ def decF : Nat → Bytes → PyStr
 /-- `_native` -/
 def native (b : Bytes) : PyStr := decF b.length b
 
+/-! ### CPython's decoder, control flow as in `stringlib/codecs.h: utf8_decode` + `unicode_decode_utf8`
+
+`utf8_decode` stops at a malformed or truncated sequence and reports *how far* it got; `unicode_decode_utf8` turns that
+into an error range `[start, end)` — 1 byte for "invalid start byte", `k` bytes for "invalid continuation byte" after
+`k-1` good continuation bytes, everything up to the end for "unexpected end of data" — and its surrogateescape branch
+writes `0xDC00 + byte` for EVERY byte of the range and resumes after it.  `decStepR` transcribes exactly that;
+`Props.C35.nativeRange_eq_native` proves it yields the same `str` as the one-byte-at-a-time `decStep` above. -/
+
+/-- `!IS_CONTINUATION_BYTE(ch2) || (ch2 < 0xA0 ? ch == 0xE0 : ch == 0xED)` -/
+def bad3 (n0 n1 : Nat) : Bool := !isCont n1 || (if n1 < 0xA0 then n0 == 0xE0 else n0 == 0xED)
+/-- `!IS_CONTINUATION_BYTE(ch2) || (ch2 < 0x90 ? ch == 0xF0 : ch == 0xF4)` -/
+def bad4 (n0 n1 : Nat) : Bool := !isCont n1 || (if n1 < 0x90 then n0 == 0xF0 else n0 == 0xF4)
+
+def escAll (bs : Bytes) : PyStr := bs.map (fun b => 0xDC00 + b.toNat)
+
+/-- one round of the decoding loop: code points written, bytes consumed -/
+def decStepR : Bytes → PyStr × Nat
+  | [] => ([], 0)
+  | b0 :: t =>
+    let n0 := b0.toNat
+    if n0 < 0x80 then ([n0], 1)
+    else if n0 < 0xE0 then
+      if n0 < 0xC2 then (escAll [b0], 1)                               -- InvalidStart
+      else match t with
+        | [] => (escAll [b0], 1)                                       -- unexpected end: [s, end)
+        | b1 :: _ =>
+          if !isCont b1.toNat then (escAll [b0], 1)                    -- InvalidContinuation1
+          else ([(n0 - 0xC0) * 64 + (b1.toNat - 0x80)], 2)
+    else if n0 < 0xF0 then
+      match t with
+      | [] => (escAll [b0], 1)                                         -- end - s < 2: unexpected end
+      | [b1] =>
+        if bad3 n0 b1.toNat then (escAll [b0], 1)                      -- InvalidContinuation1
+        else (escAll [b0, b1], 2)                                      -- unexpected end: [s, end)
+      | b1 :: b2 :: _ =>
+        if !isCont b1.toNat then (escAll [b0], 1)
+        else if n0 == 0xE0 && b1.toNat < 0xA0 then (escAll [b0], 1)
+        else if n0 == 0xED && 0xA0 ≤ b1.toNat then (escAll [b0], 1)
+        else if !isCont b2.toNat then (escAll [b0, b1], 2)             -- InvalidContinuation2
+        else ([(n0 - 0xE0) * 4096 + (b1.toNat - 0x80) * 64 + (b2.toNat - 0x80)], 3)
+    else if n0 < 0xF5 then
+      match t with
+      | [] => (escAll [b0], 1)
+      | [b1] =>
+        if bad4 n0 b1.toNat then (escAll [b0], 1) else (escAll [b0, b1], 2)
+      | [b1, b2] =>
+        if bad4 n0 b1.toNat then (escAll [b0], 1)
+        else if !isCont b2.toNat then (escAll [b0, b1], 2)             -- InvalidContinuation2
+        else (escAll [b0, b1, b2], 3)                                  -- unexpected end: [s, end)
+      | b1 :: b2 :: b3 :: _ =>
+        if !isCont b1.toNat then (escAll [b0], 1)
+        else if n0 == 0xF0 && b1.toNat < 0x90 then (escAll [b0], 1)
+        else if n0 == 0xF4 && 0x90 ≤ b1.toNat then (escAll [b0], 1)
+        else if !isCont b2.toNat then (escAll [b0, b1], 2)
+        else if !isCont b3.toNat then (escAll [b0, b1, b2], 3)         -- InvalidContinuation3
+        else ([(n0 - 0xF0) * 262144 + (b1.toNat - 0x80) * 4096 + (b2.toNat - 0x80) * 64 + (b3.toNat - 0x80)], 4)
+    else (escAll [b0], 1)                                              -- 0xF5..0xFF: InvalidStart
+
+def decFR : Nat → Bytes → PyStr
+  | _, [] => []
+  | 0, _ :: _ => []
+  | f + 1, b :: t => let r := decStepR (b :: t); r.1 ++ decFR f ((b :: t).drop r.2)
+
+/-- `bytes.decode("utf-8", "surrogateescape")` with CPython's range-based error handling -/
+def nativeRange (b : Bytes) : PyStr := decFR b.length b
+
 /-! ### arguments and the API layer -/
 
 /-- a `str | bytes` argument -/
@@ -124,6 +190,16 @@ inductive K1 where | getItem | get | getAll | contains | delItem | pop
 inductive KV where | setItem | add | setdefault
   deriving DecidableEq
 
+/-- the calls without `str | bytes` arguments -/
+inductive POp where
+  | iter (t : Nat) | len (t : Nat) | eq (t u : Nat) | copy (t : Nat) | itemsMulti (t : Nat) | items (t : Nat)
+  | keys (t : Nat) (multi : Bool) | values (t : Nat) (multi : Bool) | popitem (t : Nat) | clear (t : Nat) | toBytes (t : Nat)
+
+def POp.toOp : POp → Op
+  | .iter t => .iter t | .len t => .len t | .eq t u => .eq t u | .copy t => .copy t | .itemsMulti t => .itemsMulti t
+  | .items t => .items t | .keys t m => .keys t m | .values t m => .values t m | .popitem t => .popitem t
+  | .clear t => .clear t | .toBytes t => .toBytes t
+
 /-- a call as the user makes it: names and values are `str` or `bytes` -/
 inductive AOp where
   | k1 (kind : K1) (t : Nat) (k : Arg)
@@ -131,7 +207,7 @@ inductive AOp where
   | setAll (t : Nat) (k : Arg) (vs : List Arg)
   | insert (t : Nat) (i : Int) (k v : Arg)
   | update (t : Nat) (ps : List (Arg × Arg))
-  | plain (op : Op)          -- no str/bytes arguments: iter, len, eq, copy, items…, keys, values, popitem, clear, bytes
+  | plain (p : POp)          -- no str/bytes arguments: iter, len, eq, copy, items…, keys, values, popitem, clear, bytes
 
 def convList : List Arg → Option (List Bytes)
   | [] => some []
@@ -170,11 +246,11 @@ def lower (fs : Fields) : AOp → Option Op
     | some kb, some vb => some (Op.insert t i kb vb)
     | _, _ => none
   | .update t ps => some (Op.update t (convPairs ps).1)
-  | .plain op => some op
+  | .plain p => some p.toOp
 
 def AOp.target : AOp → Nat
   | .k1 _ t _ | .kv _ t _ _ | .setAll t _ _ | .insert t _ _ _ | .update t _ => t
-  | .plain op => op.target
+  | .plain p => p.toOp.target
 
 /-- keys of `ItemsView` / `popitem`: `_native` of the first spellings; looking one up goes through `_always_bytes` again -/
 def items (fs : Fields) : List (PyStr × PyStr) :=
@@ -230,7 +306,7 @@ def textFree : Op → Bool
   | _ => false
 
 def AOp.wf : AOp → Bool
-  | .plain op => textFree op
+  | .plain p => textFree p.toOp
   | _ => true
 
 def encList : List PyStr → Option (List Bytes)
